@@ -248,6 +248,7 @@ func synthBzip2(r *Rand) bzSynth {
 			}
 		}
 		// code lengths per tree
+		halveAll := r.Intn(10) == 0 // every tree of the block under-subscribed by exactly one half
 		lens := make([][]int, min(nt, 7))
 		codes := make([][]uint32, len(lens))
 		for t := range lens {
@@ -255,6 +256,18 @@ func synthBzip2(r *Rand) bzSynth {
 			for len(l) < numSyms { // alphabet did not fit the limit: pad (over-subscribed)
 				l = append(l, 1+r.Intn(20))
 				res.valid = false
+			}
+			if halveAll {
+				ok := true
+				for _, x := range l {
+					ok = ok && x < 20
+				}
+				if ok {
+					for k := range l {
+						l[k]++
+					}
+					res.valid = false
+				}
 			}
 			switch r.Intn(12) {
 			case 0: // under-subscribed
@@ -578,6 +591,18 @@ func genBz(r *Rand, tier string, emit func(string)) {
 		e(c)
 		if r.Intn(3) == 0 {
 			e(append(append(append([]byte{}, a...), r.Bytes(1+r.Intn(3))...), b...))
+		}
+	}
+	// every value of the header's block-size byte on a valid stream, first and second stream
+	{
+		base, _ := bzWrite(1, []byte("Hello, world!"), nil)
+		for v := 0; v < 256; v++ {
+			b := append([]byte(nil), base...)
+			b[3] = byte(v)
+			emit("bz in=" + hx(b))
+			if v%5 == 0 {
+				emit("bz in=" + hx(append(append([]byte(nil), base...), b...)))
+			}
 		}
 	}
 	// mutations and truncations
